@@ -114,6 +114,13 @@ class AuthDirective:
         return await next_directive(schema, document, parsing_errors, operation_name, context, variables, initial_value)
 
 
+async def prefixing_coercer(exception, error):
+    """the documented way of customising errors: edit the dict in place and return it (deliberately not idempotent)"""
+    error["message"] = "[%s] %s" % (type(exception).__name__, error["message"])
+    error.setdefault("extensions", {})["seen"] = error.get("extensions", {}).get("seen", 0) + 1
+    return error
+
+
 def make_auth_engine(config):
     from tartiflette import Directive, Resolver, create_engine
     name = harness.fresh_name("c16a")
@@ -124,7 +131,7 @@ def make_auth_engine(config):
         return "world"
 
     kw = {"query_cache_decorator": None} if config == "disabled" else {"query_cache_decorator": lru_cache(maxsize=1)} if config == "lru1" else {}
-    return harness.run(create_engine(AUTH_SDL, schema_name=name, **kw)), name
+    return harness.run(create_engine(AUTH_SDL, schema_name=name, error_coercer=prefixing_coercer, **kw)), name
 
 
 def ask_auth(engine, letter):
